@@ -36,6 +36,7 @@ type runner struct {
 	kinds map[string]int
 	trust uint64
 
+	errKind  int // getter errors cycle through syncfx.ErrKinds: the kind of error must not matter
 	cancelAt int // the next delivery's validation context ends right after this many GetByHeight answers (0 = never)
 	headWho  int // learner number of the Head() call parked in the getter's Head (valid while f.Getter.HeadParked())
 }
@@ -146,9 +147,16 @@ func (r *runner) deliver(h H, kind string) {
 	r.rec(fmt.Sprintf("(DDeliver %s %s %s)", r.f.Reg.Term(h), emit.Z(now), bif), ret, "deliver_"+kind)
 }
 
+// Head() asks the network only while its subjective head is not recent (C19; with a head dated ahead of the clock it
+// answers from what it has): the scripts make Head() calls only when they reach the getter.
+func (r *runner) headAsks() bool {
+	l := r.local()
+	return l != nil && l.T+3 < time.Now().UnixNano()
+}
+
 func (r *runner) headLearn(h H) {
 	// (Head() calls are single-flight: one made while another's request is parked would just wait for that answer)
-	if h == nil || r.learnerParked() || r.f.Getter.HeadParked() {
+	if h == nil || r.learnerParked() || r.f.Getter.HeadParked() || !r.headAsks() {
 		return
 	}
 	r.f.HeadCall(h)
@@ -158,7 +166,7 @@ func (r *runner) headLearn(h H) {
 // a Head() call whose network head request is slow: Head() has captured its subjective head, the answer h
 // arrives when the driver releases it
 func (r *runner) headLearnParked(h H, kind string) {
-	if h == nil || r.learnerParked() || r.f.Getter.HeadParked() {
+	if h == nil || r.learnerParked() || r.f.Getter.HeadParked() || !r.headAsks() {
 		return
 	}
 	r.headWho = r.f.HeadCallP(h)
@@ -203,9 +211,54 @@ func (r *runner) answerErr() bool {
 	if r.f.Getter.Outstanding() == nil {
 		return false
 	}
-	r.f.Getter.Answer(nil, syncfx.ErrScripted)
+	k := r.errKind % len(syncfx.ErrKinds)
+	r.errKind++
+	r.f.Getter.Answer(nil, syncfx.ErrKinds[k])
+	r.w.Count("getter_error_kind", syncfx.ErrKindNames[k])
 	r.rec("(DAnswer AErr)", 0, "answer_err")
 	return true
+}
+
+// two overlapping Head() calls share one slow network head request whose answer comes with an error: a soft
+// verification failure that bifurcation cannot confirm, a hard one, or a plain getter error.  Nothing is adopted.
+func (r *runner) headSharedRefused(kind int, rng *emit.Rand) {
+	if r.learnerParked() || r.f.Getter.HeadParked() || !r.headAsks() {
+		return
+	}
+	l := r.local()
+	var h H
+	var herr error
+	name := ""
+	switch kind % 3 {
+	case 0: // the trusted peer reports a soft failure; the Syncer's own verification is soft as well (too far), and bifurcation finds no witness
+		if r.trust == 0 {
+			return
+		}
+		h = &vhdr.Header{Chain: "a", H: l.Height() + r.trust + 3 + uint64(rng.Intn(10)), T: l.T + 1, Prev: []byte("whatever"), Nonce: rng.U64()}
+		for n := range r.f.Getter.ByHeight {
+			if n > l.Height() {
+				delete(r.f.Getter.ByHeight, n)
+			}
+		}
+		herr = &header.VerifyError{Reason: errors.New("syncfx: not enough information"), SoftFailure: true}
+		name = "soft"
+	case 1:
+		h = &vhdr.Header{Chain: "a", H: l.Height() + 1, T: l.T + 1, Prev: l.Hash(), Nonce: 1 + rng.U64()%1000}
+		herr = &header.VerifyError{Reason: errors.New("syncfx: invalid")}
+		name = "hard"
+	default:
+		h = &vhdr.Header{Chain: "a", H: l.Height() + 1, T: l.T + 1, Prev: l.Hash(), Nonce: 1 + rng.U64()%1000}
+		herr = syncfx.ErrKinds[kind%len(syncfx.ErrKinds)]
+		name = "error"
+	}
+	r.f.Reg.Term(h) // registers the header's identity (it must not show up anywhere)
+	i, j := r.f.HeadCallShared(h, herr)
+	r.rec("(DHeadP None)", 0, "head_shared_"+name)
+	r.rec("(DHeadP None)", 0, "head_shared_joiner")
+	if r.f.ReleaseHead() {
+		r.rec(fmt.Sprintf("(DRelT %d)", i), 0, "head_shared_answered")
+		r.rec(fmt.Sprintf("(DRelT %d)", j), 0, "head_shared_answered")
+	}
 }
 
 // contract-breaking answers
@@ -341,6 +394,12 @@ func (r *runner) gossipOf(kind string, rng *emit.Rand) H {
 		c := *t
 		c.T = now.Add(header.VerifClockDrift()).UnixNano() + int64(time.Second)
 		return &c
+	case "ahead": // valid in every respect and at most the clock drift ahead of the subjective head's time - which may be ahead of now already
+		t := l.T
+		if nw := now.UnixNano(); nw > t {
+			t = nw
+		}
+		return &vhdr.Header{Chain: "a", H: l.Height() + 1, T: t + int64(header.VerifClockDrift())*8/10, Prev: l.Hash(), Nonce: 1 + rng.U64()%1000}
 	case "unordered":
 		t := r.f.At(l.Height() + 2)
 		if t == nil {
@@ -354,7 +413,7 @@ func (r *runner) gossipOf(kind string, rng *emit.Rand) H {
 }
 
 var gossipKinds = []string{"next", "next", "skip", "skip", "farskip", "stale", "duplicate", "forged_adjacent", "forged_far", "fork",
-	"wrongchain", "future", "unordered"}
+	"wrongchain", "future", "unordered", "ahead", "ahead"}
 
 type scenario struct {
 	class  string
@@ -476,6 +535,10 @@ func randomScript(maxActs int) func(r *runner, rng *emit.Rand) {
 				if r.f.Getter.HeadParked() {
 					continue
 				}
+				if rng.Chance(25) {
+					r.headSharedRefused(rng.Intn(12), rng)
+					continue
+				}
 				if rng.Chance(45) {
 					// slow network head request: what it answers is compared with the head captured before
 					l := r.local()
@@ -515,7 +578,7 @@ func TestC03(t *testing.T) {
 	w.PerShard(30)
 	w.Rule = "scripts over a real Syncer+Store in virtual time, generated adaptively at each quiescence: gossip of true next/skipping heads and of " +
 		"forged (bad link), far-forged, forked, wrong-chain, future-dated, time-unordered, stale and duplicate headers; Head()-learned heads; " +
-		"Head() calls whose network head request is answered late (after further gossip); validation contexts ending between two bifurcation rounds; range answers = honest prefix / error / empty / shifted / over-long / sparse / starting below; trust range unlimited or small (soft failures, " +
+		"Head() calls whose network head request is answered late (after further gossip); two overlapping Head() calls sharing one request whose answer is refused (soft / hard verification failure, getter error); getter errors of every kind (plain, wrapping ErrNotFound / context.Canceled / DeadlineExceeded); sequences of headers each within the clock drift of the previous one; validation contexts ending between two bifurcation rounds; range answers = honest prefix / error / empty / shifted / over-long / sparse / starting below; trust range unlimited or small (soft failures, " +
 		"bifurcation with and without getter gaps); three always-generated real-time corpus cases with learner calls parked by a header type (inside " +
 		"setLocalHead, inside networkHead, inside syncStore.Append); every script ends by draining; non-trivial when at least 4 actions"
 	nRandom := 90
@@ -608,6 +671,34 @@ func TestC03(t *testing.T) {
 			r.deliver(r.f.At(l.Height()+2), "next")
 			r.releaseHead()
 			r.deliver(r.gossipOf("next", rng), "next")
+		}},
+		{"getter_error_kinds_then_gossip", false, 0, func(r *runner, rng *emit.Rand) {
+			// every kind of getter error only aborts the attempt: the target stays the subjective head, what follows is
+			// verified against it
+			for k := 0; k < len(syncfx.ErrKinds); k++ {
+				r.deliver(r.f.At(r.local().Height()+6), "skip")
+				r.answerPrefix(2)
+				r.answerErr()
+				r.deliver(r.gossipOf("unordered", rng), "unordered")
+				r.deliver(r.gossipOf("stale", rng), "stale")
+				r.deliver(r.gossipOf("next", rng), "next")
+				r.finish(rng)
+			}
+		}},
+		{"shared_head_request_refused", false, 8, func(r *runner, rng *emit.Rand) {
+			for k := 0; k < 3; k++ {
+				r.headSharedRefused(k, rng)
+				r.deliver(r.gossipOf("next", rng), "next")
+			}
+			r.finish(rng)
+		}},
+		{"future_dated_sequence", false, 0, func(r *runner, rng *emit.Rand) {
+			// each header is less than the clock drift ahead of the previous one: only the first is within the drift of now
+			for k := 0; k < 4; k++ {
+				r.deliver(r.gossipOf("ahead", rng), "ahead")
+			}
+			r.deliver(r.gossipOf("skip", rng), "skip")
+			r.finish(rng)
 		}},
 		{"bifurcation_context_ends", false, 8, func(r *runner, rng *emit.Rand) {
 			// the validation context of the gossip message ends between two bifurcation rounds
